@@ -517,7 +517,7 @@ fn owning_case<const SIZE: usize, const BUF: usize>(ctx: &Ctx, stream: &str, idx
         Ok(Err(e)) => (None, Err(format!("err {:?}", e))),
         Ok(Ok(q)) => (Some(q), Ok(())),
     };
-    let events = (SIZE as u64 * rng.range(3, ctx.tier.pick(25, 60) as u64)) as usize;
+    let events = if stream.starts_with("wrap") { 200000 + (SIZE as u64 * rng.range(3, 60)) as usize } else { (SIZE as u64 * rng.range(3, ctx.tier.pick(25, 60) as u64)) as usize };
     let mut w = match start(id, "owning", &st, 0, SIZE, BUF, seed, feats, notifies, &mut rng, res) {
         Ok(w) => w,
         Err(c) => return c,
@@ -571,7 +571,7 @@ fn input_case(ctx: &Ctx, stream: &str, idx: usize, id: String) -> Case {
         Ok(Ok(d)) => (Some(d), Ok(())),
     };
     let negotiated = st.borrow().driver_features;
-    let events = (32 * rng.range(2, ctx.tier.pick(12, 40) as u64)) as usize;
+    let events = if stream.starts_with("wrap") { 200000 + (32 * rng.range(2, 40)) as usize } else { (32 * rng.range(2, ctx.tier.pick(12, 40) as u64)) as usize };
     let mut w = match start(id, "input", &st, 0, 32, 8, seed, negotiated, notifies, &mut rng, res) {
         Ok(w) => w,
         Err(c) => return c,
@@ -644,10 +644,13 @@ pub fn run_drivers(ctx: &Ctx) -> Vec<Case> {
     let mut cases = crate::runner::par_cases(ctx, "C19", "owning", ctx.tier.pick(1200, 12000), |i, id| owning_dispatch(ctx, "owning", i, id));
     cases.extend(crate::runner::par_cases(ctx, "C19", "input", ctx.tier.pick(300, 3000), |i, id| input_case(ctx, "input", i, id)));
     cases.extend(crate::runner::par_cases(ctx, "C19", "sound", ctx.tier.pick(300, 3000), |i, id| sound_case(ctx, "sound", i, id)));
+    // floods longer than 2^16 completions: the free-running 16-bit indices of the event queue wrap
+    cases.extend(crate::runner::par_cases(ctx, "C19", "wrap-owning", ctx.tier.pick(6, 24), |i, id| owning_dispatch(ctx, "wrap-owning", i, id)));
+    cases.extend(crate::runner::par_cases(ctx, "C19", "wrap-input", ctx.tier.pick(2, 8), |i, id| input_case(ctx, "wrap-input", i, id)));
     cases
 }
 
-pub const RULE_DRIVERS: &str = "driver level: the real OwningQueue<SIZE,BUFFER_SIZE> for (4,16),(8,64),(16,8),(2,1),(32,40),(1,5) with handlers returning Some/None/Err, the real VirtIOInput::pop_pending_event and VirtIOSound::latest_notification; per case a flood of 2..60 x SIZE events: the device completes a random held buffer (random order), in bursts of 0..SIZE+2 between polls, with written length uniform in 0..=BUFFER_SIZE, plus zero, full, under-written and oversized (BUFFER_SIZE+1.., 1000, 65536, 2^31, u32::MAX) reported lengths; sound: valid/unknown notification codes; features INDIRECT/EVENT_IDX/ACCESS_PLATFORM varied; non-trivial = more deliveries than the queue has buffers and every delivery followed by a verified same-token re-post";
+pub const RULE_DRIVERS: &str = "driver level: the real OwningQueue<SIZE,BUFFER_SIZE> for (4,16),(8,64),(16,8),(2,1),(32,40),(1,5) with handlers returning Some/None/Err, the real VirtIOInput::pop_pending_event and VirtIOSound::latest_notification; per case a flood of 2..60 x SIZE events (plus a few floods of more than 65536 events so the 16-bit ring indices wrap): the device completes a random held buffer (random order), in bursts of 0..SIZE+2 between polls, with written length uniform in 0..=BUFFER_SIZE, plus zero, full, under-written and oversized (BUFFER_SIZE+1.., 1000, 65536, 2^31, u32::MAX) reported lengths; sound: valid/unknown notification codes; features INDIRECT/EVENT_IDX/ACCESS_PLATFORM varied; non-trivial = more deliveries than the queue has buffers and every delivery followed by a verified same-token re-post";
 
 pub fn run(ctx: &Ctx) -> (Vec<Case>, String, bool, BTreeMap<String, String>) {
     (run_drivers(ctx), RULE_DRIVERS.to_string(), false, BTreeMap::new())
